@@ -23,8 +23,9 @@ RULE = ("pairs of osu charts over a shared pool of 1-6 times (integers and dyadi
         "sounding notes per time (hitsound bits 0-15 and beyond, 1-4 volumes incl. 0 and negative, named samples with "
         "repeats and empty names, sample/addition/custom sets), target with 0-5 notes per time (own sounds, own event "
         "samples), hits and holds on both sides (hold lengths positive, zero and negative), occasionally > 16 rows per side "
-        "(unstable sort ties), note lists built by one constructor call or by appending item after item, rarely a ';' in a "
-        "name (known finding D19c) or a hold without a length (outside the property's domain: correspondence only); "
+        "(unstable sort ties), note lists built by one constructor call or by appending item after item, names that contain "
+        "';' (the separator of the code before the D19c repair), rarely a hold without a length (outside the property's "
+        "domain: correspondence only); "
         "non-trivial = some source sound shares its time with a target note or overflows into the event samples")
 ASSUMPTIONS = [
     "pandas sort_values('offset') on the note frames depends only on the offset column (the permutation is re-derived "
@@ -95,8 +96,8 @@ def gen(rng, tier, i):
     names = rng.sample(NAMES, rng.choice([1, 2, 3, 5]))
     vols = rng.sample(VOLS, rng.choice([1, 1, 2, 3, 4]))
     special = rng.random()
-    semi = special < 0.04
-    nanhold = 0.04 <= special < 0.07
+    semi = special < 0.10
+    nanhold = 0.10 <= special < 0.13
     if semi:
         names = names + rng.sample(SEMI, rng.choice([1, 2]))
     keys = rng.choice([4, 4, 7, 10])
@@ -399,7 +400,7 @@ def run(case, drv):
     ss, st = perms(case)
     model = drv.call("c18.copy", src=jsrc, tgt=jtgt, sigma_s=ss, sigma_t=st)["ok"]
     dom = drv.call("c18.dom", src=jsrc, tgt=jtgt)["ok"]
-    in_dom = dom["no_sep"] and dom["holds_have_length"]
+    in_dom = dom["holds_have_length"]      # ';' in names is inside the domain since the D19c repair
     detail = {}
     if impl is None:
         return dict(claim="copy", ok=False, agree=False, dom=in_dom, kf=None, tags=["impl-raises"], nontrivial=True,
@@ -419,10 +420,7 @@ def run(case, drv):
     agree = exact or canon_weak(impl) == canon_weak(model)
     if not exact and agree:
         tags.append("tie-order-only")
-    kf = None
-    if not ok:
-        if (not dom["no_sep"]) and set(failed) <= {"no_invention", "samples_conserved"}:
-            kf = "D19c"
+    kf = None       # no open finding touches C18 (D19a, D19b, D19c are fixed: their witnesses are in the corpus)
     # --- bookkeeping
     n_src = len(src_c["hits"]) + len(src_c["holds"])
     n_tgt = len(tgt_c["hits"]) + len(tgt_c["holds"])
